@@ -2,7 +2,9 @@ use crate::report::{Ctx, Outcome, Tier};
 
 pub mod c01;
 pub mod c07;
+pub mod c08;
 pub mod c13;
+pub mod c14;
 
 /// One property check. Cases are numbered globally (0..total); case `i` derives all its random
 /// choices from (seed, i), so a violation replays from those two numbers alone.
@@ -31,7 +33,7 @@ pub trait Check: Sync {
 }
 
 pub fn all() -> Vec<Box<dyn Check>> {
-    vec![Box::new(c01::C01), Box::new(c07::C07), Box::new(c13::C13)]
+    vec![Box::new(c01::C01), Box::new(c07::C07), Box::new(c08::C08), Box::new(c13::C13), Box::new(c14::C14)]
 }
 
 pub fn find(id: &str) -> Option<Box<dyn Check>> {
